@@ -1608,6 +1608,15 @@ func c14genCases(c *h.Ctx, yield func(*h.Case)) {
 		emit(cs)
 	}
 	{
+		// QuitError with a refusing node next to answering ones, many times over (the error and the
+		// accepted reply must come at the same moment for the double close of `done`)
+		cs := &h.Case{Class: "corpus:parallel-quit-error"}
+		for i := 0; i < 80; i++ {
+			cs.Ops = append(cs.Ops, fmt.Sprintf("c14 par t%d o%d %d %d quiterr", i%2, i%2, 3+i%3, 300+i))
+		}
+		emit(cs)
+	}
+	{
 		// SendToAll with servers that fail in the middle / at the start / at the end of the roster
 		// (seed C14r5-B): every reply at its server's position, nothing where the Send failed
 		cs := &h.Case{Class: "corpus:send-to-all-positions"}
